@@ -162,7 +162,7 @@ func checkC12Woven(env *engine.Env, c C12Case) engine.Outcome {
 	// (to see whether outputs diverge as well); otherwise the full bound is explored
 	maxExecs := 400
 	if env.Thorough() {
-		maxExecs = 20000
+		maxExecs = 60000
 	}
 	if len(races) > 0 {
 		maxExecs = 40
